@@ -267,4 +267,15 @@ def refusedCommitAborts (ks : List String) : Bool :=
 def relockCheck (r : String × Nat × Nat) : Bool :=
   if r.1 = "nfs.validateRename" then 2 ≤ r.2.2 else r.2.1 ≤ r.2.2
 
+/-! ### methods assumed to run with the struct's mutex held -/
+
+/-- exported methods that touch guarded fields without locking and are nevertheless tolerated: `cache.Cache.PrintCache`, a
+    debugging printer whose only caller is `evict`, under the mutex -/
+def mutexAssumedAllowed : List String := ["mu_cache_Cache_PrintCache"]
+
+/-- the assumption "my caller holds `mu`" is sound only for a method that nothing but the struct's own methods can call:
+    unexported, and not called by a plain function of its package -/
+def mutexAssumedCheck (m : String × Bool × Nat) : Bool :=
+  (m.2.1 = false && m.2.2 = 0) || mutexAssumedAllowed.contains m.1
+
 end GoNfsd.Model.Skeleton
